@@ -42,7 +42,7 @@ from lib import XShell, call_impl, gen_basis, run_cases, short_float, shrink_she
 RULE = ("bases of 1-4 shells, l 0..3, 1-4 primitives, 1-3 segmented contractions, Cartesian / spherical / mixed; symmetric "
         "density matrices with dyadic entries (sparse, dense, C C^T); 1-30 points; 1-5 nuclei with charges of either "
         "sign and magnitude 0.1..100; geometries: random grid, all on one axis-parallel line (every distance exact), "
-        "Pythagorean offsets (exact rational distances off-axis), points on nuclei; thresholds 0, below the smallest "
+        "Pythagorean offsets (exact rational distances off-axis), points on nuclei, 53-bit point coordinates; thresholds 0, below the smallest "
         "distance, beyond the largest, d(1-2^-40) / d / d(1+2^-40) at exactly representable distances, sqrt(d2)(1-+2^-20) "
         "and the double nearest to sqrt(d2) (accepted either way) at the others; no / square / rectangular transforms "
         "(1, 2, K-1, K+1 rows); a separate stream of invalid calls (negative threshold, asymmetric or non-square or "
@@ -348,11 +348,16 @@ def gen_geometry(rng, basis, geo, npts, nnuc):
         c = grid(rng, span=3)
         if c not in nuc:
             nuc.append(c)
+    if geo == "float" and rng.random() < 0.4:
+        nuc[-1] = [Fraction(rng.uniform(-3, 3)) for _ in range(3)]       # a nucleus off the grid (no shell on it)
     pts = []
     for _ in range(npts):
         r = rng.random()
         n = rng.choice(nuc)
-        if geo == "pyth" and r < 0.75:
+        if geo == "float" and r < 0.85:
+            w = rng.choice([0.01, 0.5, 3.0, 40.0])
+            pts.append([Fraction(float(x) + rng.uniform(-w, w)) for x in n])      # 53-bit coordinates
+        elif geo == "pyth" and r < 0.75:
             q = list(rng.choice(QUADS)[:3])
             rng.shuffle(q)
             s = Fraction(1, rng.choice([2, 4, 8, 16])) * rng.randint(1, 3)
@@ -360,11 +365,11 @@ def gen_geometry(rng, basis, geo, npts, nnuc):
         elif r < 0.1 or (geo == "onnuc" and r < 0.5):
             pts.append(list(n))                                  # on a nucleus
         elif r < 0.75:
-            pts.append([x + Fraction(rng.randint(-40, 40), 16) for x in n])
+            pts.append([Fraction(float(x + Fraction(rng.randint(-40, 40), 16))) for x in n])
         elif r < 0.9:
             pts.append(grid(rng, span=4))
         else:
-            pts.append([x + Fraction(rng.randint(-400, 400), 4) for x in n])
+            pts.append([Fraction(float(x + Fraction(rng.randint(-400, 400), 4))) for x in n])
     return pts, nuc
 
 
@@ -404,7 +409,8 @@ def gen_thr(rng, pts, nuc, kind):
     return Fraction(1, 2), "mid"
 
 
-THR_KINDS = ["zero", "beyond", "below-min", "exact-", "exact=", "exact+", "clear-", "clear+", "either", "mid"]
+THR_KINDS = ["zero", "beyond", "below-min", "exact-", "exact=", "exact+", "clear-", "clear+", "either", "mid", "exact=",
+             "either"]
 
 
 def gen_valid(rng, idx, tier):
@@ -412,7 +418,7 @@ def gen_valid(rng, idx, tier):
     big = (idx % 7 == 0)
     lmax = 3 if n <= 2 else (3 if big else 2)
     basis = gen_basis(rng, n, lmax=lmax, kmax=4 if n <= 2 else 3, mmax=3 if n <= 2 else 2)
-    geo = ["random", "axis", "pyth", "onnuc"][(idx // 4) % 4]
+    geo = ["random", "axis", "pyth", "onnuc", "float"][(idx // 4) % 5]
     cost = sum((s.l + 1) ** 2 * len(s.exps) for s in basis) ** 2
     npmax = 30 if cost < 400 else (12 if cost < 1500 else 5)
     npts = rng.choice([1, 2, 3, 5, 8, 13, 21, 30])
@@ -534,7 +540,7 @@ def special_cases():
 
 def gen_cases(tier, seed):
     rng = random.Random(1000003 * seed + 14)
-    nv, ni = (132, 20) if tier == "quick" else (1500, 120)
+    nv, ni = (140, 20) if tier == "quick" else (3000, 200)
     cases = special_cases()
     for i in range(nv):
         cases.append(gen_valid(rng, i, tier))
